@@ -1,12 +1,73 @@
-(* C04 -- placeholder until Proofs/Fasta.v lands *)
-From Tola Require Import Py.Base Model.Fragment Model.Fasta.
+(* C04 -- FASTA index and derived assembly describe the file exactly.
+   Only statements, each closed by [exact] of a lemma from Proofs/. *)
+From Tola Require Import Py.Base Model.Fragment Model.Scaffold Model.Fasta Model.Stream Model.FastaSpec
+  Proofs.FastaIndex Proofs.StreamFinal.
+From Tola Require Proofs.Stream.
 
-(* the pinned commit silently dropped the last residue of a file without a
-   final newline; the repaired index does not *)
-Lemma C04_legacy_refuted :
-  (match index_fasta_legacy (s ">a
-ACGT") 250000 with Ok (idx, _, _) => map (fun p => fi_length (snd p)) idx | Err _ => [] end) = [3]
-  /\ (match index_fasta (s ">a
-ACGT") 250000 with Ok (idx, _, _) => map (fun p => fi_length (snd p)) idx | Err _ => [] end) = [4].
-Proof. vm_compute. split; reflexivity. Qed.
+(* For every well-formed FASTA layout (>= 1 record, distinct non-empty names
+   without blanks, optional description, >= 1 residue per record, residues free
+   of CR/LF/'>', any uniform line width >= 1, LF or CRLF, final newline present
+   or absent) and every buffer size, indexing yields per record the faidx
+   quintuple (name, residue count, offset of the first residue, residues per
+   full line, bytes per full line) and the derived assembly tiles each record
+   with one forward fragment per maximal ACGT/acgt run and one gap per other
+   maximal run, in order. *)
+Theorem C04_index_spec : forall w eol final_nl recs buf,
+  fasta_wf w eol recs ->
+  drop_peak (index_fasta (render w eol final_nl recs) buf)
+  = Ok (expected_index w eol recs, expected_asm recs).
+Proof. exact index_spec. Qed.
+Print Assumptions C04_index_spec.
+
+(* random access through that index returns exactly residues s..e, for every
+   1 <= s <= e <= n of every record *)
+Theorem C04_random_access : forall w eol final_nl recs k r off,
+  fasta_wf w eol recs -> nth_error recs k = Some r -> nth_error (offsets w eol recs 0) k = Some off ->
+  good_access (render w eol final_nl recs) (expected_info w eol r off) (r_seq r).
+Proof. exact random_access_spec. Qed.
+Print Assumptions C04_random_access.
+
+(* duplicate record names and files without records are rejected *)
+Theorem C04_duplicate_names_rejected : forall w eol final_nl recs buf,
+  (1 <= w)%nat -> eol_ok eol -> recs <> [] -> Forall record_ok recs -> ~ NoDup (map r_name recs) ->
+  index_fasta (render w eol final_nl recs) buf = Err ValueError.
+Proof. exact duplicate_names_rejected. Qed.
+Print Assumptions C04_duplicate_names_rejected.
+
+Theorem C04_empty_file_rejected : forall buf, index_fasta [] buf = Err ValueError.
+Proof. exact empty_file_rejected. Qed.
+Print Assumptions C04_empty_file_rejected.
+
+(* streaming any scaffold over an accessible file gives header + wrapped row
+   bytes (C03); with C04_random_access the access premise holds for every
+   rendered file, so streaming the derived assembly reproduces each record with
+   the bytes of each gap row replaced by the gap character *)
+Theorem C04_stream_back : forall file idx seqs buf L gap_char name rows body,
+  1 <= buf -> (1 <= L)%nat ->
+  Proofs.Stream.seqs_accessible file idx seqs ->
+  gaps_nonneg rows ->
+  rows_bytes seqs gap_char rows = Some body ->
+  write_scaffold file idx buf (Z.of_nat L) gap_char name rows
+  = Ok (GT :: name ++ LF :: wrap_body L body).
+Proof. exact write_scaffold_final. Qed.
+Print Assumptions C04_stream_back.
+
+(* the scanner of the pinned commit dropped the last residue of a file without
+   a final newline (repaired by a fix: commit) *)
+Theorem C04_legacy_refuted : exists file, file = s ">a
+ACGT" /\
+  (match index_fasta_legacy file 250000 with
+   | Ok (idx, _, _) => map (fun p => fi_length (snd p)) idx | Err _ => [] end) = [3]
+  /\ (match index_fasta file 250000 with
+      | Ok (idx, _, _) => map (fun p => fi_length (snd p)) idx | Err _ => [] end) = [4].
+Proof. exact index_legacy_refuted. Qed.
 Print Assumptions C04_legacy_refuted.
+
+(* non-vacuity: a two-record CRLF layout without final newline is well formed *)
+Example C04_wf_example :
+  fasta_wf 3 [CR; LF] [mkRecord (s "a") (s " d") (s "ACGTNNAC"); mkRecord (s "b") [] (s "NNAC")].
+Proof.
+  unfold fasta_wf. split; [auto|]. split; [right; reflexivity|]. split; [discriminate|]. split.
+  - repeat constructor; try discriminate; cbn; auto.
+  - repeat constructor; cbn; intuition discriminate.
+Qed.
